@@ -1,5 +1,5 @@
 ---- MODULE Cov ----
-EXTENDS Integers, Sequences, TLC, FiniteSets, SequencesExt
+EXTENDS Integers, Sequences, TLC, FiniteSets, SequencesExt, Json
 CONSTANT MaxRows, TypeName
 
 MAXW == 8
@@ -99,4 +99,5 @@ Result == Uncovered([i \in 1..Len(rows) |-> <<rows[i]>>], 1, TopSpace(Ty))
 Agree == (Result = << >>) <=> (UncoveredVals = {})
 WitnessSound == \A i \in 1..Len(Result) : \E v \in UncoveredVals : Matches(Result[i][1], v)
 WitnessComplete == Len(Result) <= MAXW => \A v \in UncoveredVals : \E i \in 1..Len(Result) : Matches(Result[i][1], v)
+Report == PrintT(<<"REPLAY", ToJson([ty |-> TypeName, rows |-> rows, exhaustive |-> (UncoveredVals = {}), nmissing |-> Len(Result)])>>)
 ====
